@@ -156,6 +156,23 @@ carquet_status_t carquet_init(void) {
             if (level < 2) { g_cpu_info.has_avx2 = 0; g_cpu_info.has_avx = 0; }
             if (level < 1) { g_cpu_info.has_sse42 = 0; g_cpu_info.has_sse41 = 0; }
         }
+        /* CARQUET_VERIF_CPU_MASK=<hex>: keep only the listed features (bit 0
+         * sse4.1, 1 sse4.2, 2 avx, 3 avx2, 4 avx512f, 5 avx512bw, 6 avx512vl,
+         * 7 avx512vbmi), so that every capability set a CPU or hypervisor can
+         * report is reachable, not only the four nested levels. */
+        const char* mask = getenv("CARQUET_VERIF_CPU_MASK");
+        if (mask) {
+            extern unsigned long strtoul(const char*, char**, int);
+            unsigned long m = strtoul(mask, 0, 16);
+            if (!(m & 1)) g_cpu_info.has_sse41 = 0;
+            if (!(m & 2)) g_cpu_info.has_sse42 = 0;
+            if (!(m & 4)) g_cpu_info.has_avx = 0;
+            if (!(m & 8)) g_cpu_info.has_avx2 = 0;
+            if (!(m & 16)) g_cpu_info.has_avx512f = 0;
+            if (!(m & 32)) g_cpu_info.has_avx512bw = 0;
+            if (!(m & 64)) g_cpu_info.has_avx512vl = 0;
+            if (!(m & 128)) g_cpu_info.has_avx512vbmi = 0;
+        }
     }
 #endif
 
